@@ -718,7 +718,7 @@ def mutate_keyed(rng, lst, fields, depth):
                     rec[k][kk] = change_value(rng, rec[k][kk], rng.random() < 0.2, 1, False)
                 elif isinstance(rec[k], list) and rec[k] and k == "items":
                     sub = rng.choice(rec[k])
-                    cc = [x for x in sub if x != "id"]
+                    cc = [x for x in sub if x != "id"] if isinstance(sub, dict) else []  # an earlier edit may have replaced an empty items list
                     if cc:
                         x = rng.choice(cc)
                         sub[x] = change_value(rng, sub[x], False, 1, False)
